@@ -99,7 +99,10 @@ static void gen_xml_faults(int seedset, const std::string& vtk, const std::strin
         if (r == std::string::npos) { p = q; continue; } std::string inner = xml.substr(q + 1, r - q - 1); bool leaf = inner.find('<') == std::string::npos; size_t end = r + close.size();
         auto add = [&](const std::string& kind, const std::string& text) { Case c; c.seedset = seedset; c.file = "xml"; c.kind = kind; c.where = tag; c.vtk = vtk; c.xml = text; out.push_back(c); };
         add("element-removed", xml.substr(0, p) + xml.substr(end)); add("element-duplicated", xml.substr(0, end) + xml.substr(p, end - p) + xml.substr(end)); add("element-renamed", xml.substr(0, p) + "<" + tag + "_x>" + inner + "</" + tag + "_x>" + xml.substr(end));
-        if (leaf) { add("element-text-empty", xml.substr(0, q + 1) + xml.substr(r)); add("element-self-closed", xml.substr(0, p) + "<" + tag + "/>" + xml.substr(end)); for (const char* m : MENU) add(std::string("element-text-replaced-by-") + m, xml.substr(0, q + 1) + m + xml.substr(r)); }
+        if (leaf) { add("element-text-empty", xml.substr(0, q + 1) + xml.substr(r)); add("element-self-closed", xml.substr(0, p) + "<" + tag + "/>" + xml.substr(end));
+            // children that are not text: a comment before the value (legal XML, the value is still there), a comment only, the value wrapped in a nested element, a CDATA section, a processing instruction
+            add("element-text-preceded-by-a-comment", xml.substr(0, q + 1) + "<!-- unit -->" + inner + xml.substr(r)); add("element-holds-a-comment-only", xml.substr(0, q + 1) + "<!-- unit -->" + xml.substr(r)); add("element-text-wrapped-in-a-nested-element", xml.substr(0, q + 1) + "<value>" + inner + "</value>" + xml.substr(r));
+            add("element-text-in-a-cdata-section", xml.substr(0, q + 1) + "<![CDATA[" + inner + "]]>" + xml.substr(r)); add("element-holds-a-processing-instruction", xml.substr(0, q + 1) + "<?x y?>" + xml.substr(r)); for (const char* m : MENU) add(std::string("element-text-replaced-by-") + m, xml.substr(0, q + 1) + m + xml.substr(r)); }
         p = q; }
     for (size_t off = 0; off < xml.size(); off += (thorough ? 1 : 8)) { Case c; c.seedset = seedset; c.file = "xml"; c.kind = "truncated"; c.where = "offset"; c.vtk = vtk; c.xml = xml.substr(0, off); out.push_back(c); }
 }
